@@ -30,7 +30,8 @@ class Ctx:
         self.floors = []           # (name, measured, floor)
         self.units = set()         # functions / files consulted
         self.assumptions = []
-        self.program_ok = {}       # key -> True: a routine was unrolled on its abstract model (sa/miniint.py) and did what is expected of it
+        self.program_ok = {}
+        self.program_lazy = {}          # program key -> thunk that runs the program (and sets program_ok) on demand       # key -> True: a routine was unrolled on its abstract model (sa/miniint.py) and did what is expected of it
 
     # an obligation is a named instance of a rule on a named construct
     def ob(self, rule, key, ok, msg="", where=""):
@@ -41,6 +42,8 @@ class Ctx:
         """A structural clause about a routine that is also decided by unrolling it: recorded as it is when it holds, or when the program did not
         run / did not pass; when the clause fails although the program passed, the program decides -- the clause describes one way of writing the
         routine, the program what the routine does -- and a note is kept."""
+        if not ok and prog_key not in self.program_ok and prog_key in self.program_lazy:
+            self.program_lazy.pop(prog_key)()          # the program is run when a structural clause first needs it
         if ok or not self.program_ok.get(prog_key):
             return self.ob(rule, key, ok, msg, where)
         self.notes.append("%s %s: structural clause not met (%s); decided by the unrolled routine" % (rule, key, msg))
